@@ -350,7 +350,7 @@ theorem good_lineComment (n : Nat) (s : Scan) (hn : s.input.size - s.pos < n) : 
   obtain ⟨s', h, _, _⟩ := lineComment_terminates n s hn
   rw [h]; exact lineCommentLoop_le n s s' h
 
-theorem blockCommentLoop_le : ∀ (n : Nat) (s s' : Scan), blockCommentLoop n s = .ok s' → Le s s' := by
+theorem blockCommentLoop_le (posErr : Err) : ∀ (n : Nat) (s s' : Scan), blockCommentLoop posErr n s = .ok s' → Le s s' := by
   intro n
   induction n with
   | zero => intro s s' h; unfold blockCommentLoop at h; cases h
@@ -363,10 +363,11 @@ theorem blockCommentLoop_le : ∀ (n : Nat) (s s' : Scan), blockCommentLoop n s 
       · cases h
       · exact (le_next s).trans (ih _ _ h)
 
-theorem good_blockComment (n : Nat) (s : Scan) (hn : s.input.size - s.pos < n) : Good s (blockCommentLoop n s) := by
-  rcases blockComment_terminates n s hn with ⟨s', h, _, _⟩ | ⟨msg, l, c, s', h⟩
-  · rw [h]; exact blockCommentLoop_le n s s' h
-  · rw [h]; apply Good.err; simp
+theorem good_blockComment (posErr : Err) (hp : posErr ≠ .outOfFuel) (n : Nat) (s : Scan) (hn : s.input.size - s.pos < n) :
+    Good s (blockCommentLoop posErr n s) := by
+  rcases blockComment_terminates posErr n s hn with ⟨s', h, _, _⟩ | ⟨s', h⟩
+  · rw [h]; exact blockCommentLoop_le posErr n s s' h
+  · rw [h]; exact Good.err hp
 
 theorem nul_digit : digitChars.contains '\x00' = false := by decide
 theorem nul_letter : letterChars.contains '\x00' = false := by decide
@@ -804,7 +805,7 @@ theorem prog_lexInitial (cfg : ScanCfg) (s : Scan) : Prog s (lexInitial cfg s) :
     · rw [if_pos ha]
       apply Strict.prog
       apply Strict.of_lt (le_acceptPrefix t _) (acceptPrefix_lt t _ (by decide) ha)
-      apply Good.bind (good_blockComment _ _ (by have := (le_acceptPrefix t ['/', '*']).pos; rw [(le_acceptPrefix t ['/', '*']).input]; omega))
+      apply Good.bind (good_blockComment _ (by simp [Scan.err]) _ _ (by have := (le_acceptPrefix t ['/', '*']).pos; rw [(le_acceptPrefix t ['/', '*']).input]; omega))
       intro s2 _; exact Good.pure (le_emit s2 _)
     rw [if_neg ha]; clear ha
     by_cases hn : ((t.next).2 != none) = true
